@@ -65,6 +65,7 @@ PROPS = {
             {'engine': 'verus', 'name': 'zip', 'tier': 'quick', 'role': 'Zip::next: positional one-to-one pairing, min(|a|,|b|) pairs'},
             {'engine': 'verus', 'name': 'route_next', 'tier': 'quick', 'role': 'RoutingEnd::next: first matching route wins, no other route, unmatched dropped, control to every sender'},
             {'engine': 'verus', 'name': 'binary_select', 'tier': 'quick', 'role': 'merge (and the input side of zip / joins): the two-input receiver delivers every batch it reads from either link element by element, in order, wrapped in the variant of its side (read_step / out_rel); one side is read per call'},
+            {'engine': 'verus', 'name': 'merge', 'tier': 'quick', 'role': 'Stream::merge: the unwrapping closure keeps every element of either side unchanged and drops only the side end markers (with binary_select and chain_ops: multiset union)'},
         ],
         'explanation': 'End::next sends one copy of every element to each downstream block group (split) and, with singleton groups (All), to every replica (broadcast).',
         'assumptions': [],
